@@ -65,7 +65,10 @@ def session(rng, kind):
         steps = [dbgen.open_step(rng.choice([0, 1, 2]), rng.choice([300, 1 << 30]), rng.choice([0, 500, 1000]), mem=rng.choice([100, 150, 250]),
                                  bg=True, interval_us=rng.choice([500, 2000]), wbuf=rng.choice([16, 64, 4096]))]
         pads = [0, 20, 40]
-    nops = {"plain": 30, "bigvalues": 14, "overwrite": 160, "twoclients": 24}[kind]
+    nops = {"plain": 30, "bigvalues": 14, "overwrite": 160, "twoclients": 24, "foreignfile": 30}[kind]
+    if kind == "foreignfile":    # the application keeps a file of its own (LOCK) in the database directory, from the start; compactions run all the time
+        steps = [dbgen.open_step(1, 1 << 30, 1000, mem=100, bg=True, interval_us=500, wbuf=64), {"op": "touch"}]
+        pads = [0, 20, 40]
 
     def ops(n, cid=""):
         out = []
@@ -237,6 +240,7 @@ def run(tier, pid=PID, mode="sync"):
     sessions.append(("hugeput-%d" % n, session(rng, "hugeput")))
     sessions += [("delheavy-%d" % (n + 1 + i), session(rng, "delheavy")) for i in range(6 if thorough else 2)]
     sessions.append(("manytables-%d" % (n + 9), session(rng, "manytables")))
+    sessions.append(("foreignfile-%d" % (n + 10), session(rng, "foreignfile")))
     npoints, ndistinct, descs, nok, nbad = run_sessions(o, binary, sessions, mode, pid)
     hugewal(o, binary, mode, pid)
     log("[%s] %d sessions, %d crash points (%d distinct images), %d recover into the allowed set, %d rejected" % (pid, n, npoints, ndistinct, nok, nbad))
